@@ -29,6 +29,11 @@ CLAIMS = {
          "no guard, records exactly the replayed list and commits through the ordinary routine. Does not decide that replay lands in the same configuration "
          "from every state, nor the resumable part.",
          "path rules + who-may-write + call-graph reachability over clang AST facts (static analysis)"),
+ "C12": ("Decides tie-breaking operators (left half kept on ties), the utility composition formulas of nested composite / orthogonal regions as expression "
+         "shape, same-kind delegation of reports on the way down, rank masking, the shape of the cumulative walk (skip iff cursor >= utility, one rng.next() "
+         "per resolution, rng.next called nowhere else, the arrays walked are the arrays summed), that the walk cannot return none, and the anonymous-head "
+         "defaults for rank/utility. Does not decide which interval a particular float r*sum falls into (rounding is a numeric question).",
+         "expression-shape / sibling agreement rules + interprocedural return-origin analysis over clang AST facts (static analysis)"),
  "C05": ("Decides the structural clauses of C05 for every instantiation of the reaction/update patterns in the witness zoo: phase order in "
          "R_::update/react/query, head vs sub-state order in C_/O_ and the 16 reaction wrappers, Initial-before-Remaining in OS_, consumption gating "
          "between any two consecutive deliveries (call-graph fixpoint mayDeliver/entryGated + path rule), active-prong origin, injected-base order. "
